@@ -27,7 +27,20 @@ impl Finding {
 }
 
 pub fn load(root: &str) -> Vec<Finding> {
-    let path = format!("{root}/known_findings.json");
+    // the main file plus one optional file per property under known_findings.d/
+    let mut out = load_file(&format!("{root}/known_findings.json"));
+    if let Ok(rd) = std::fs::read_dir(format!("{root}/known_findings.d")) {
+        let mut ps: Vec<_> = rd.filter_map(|e| e.ok()).map(|e| e.path()).filter(|p| p.extension().map(|x| x == "json").unwrap_or(false)).collect();
+        ps.sort();
+        for p in ps {
+            out.extend(load_file(&p.to_string_lossy()));
+        }
+    }
+    out
+}
+
+fn load_file(path: &str) -> Vec<Finding> {
+    let path = path.to_string();
     let Ok(text) = std::fs::read_to_string(&path) else {
         return vec![];
     };
